@@ -19,6 +19,12 @@ def generate(rng, tier):
     cases = []
     for d in [1, 2, 3, 64]:
         cases.append(mk_chain(rng, "i64", d, 2))
+    # the chain's state is a public field: replaced between two steps by a vector of another (or the same) length
+    for _ in range(12 if tier == "quick" else 100):
+        d0, d1 = rng.randint(1, 12), rng.randint(1, 12)
+        c = mk_chain(rng, rng.choice(["i64", "f64", "i32"]), d0, rng.randint(2, 5))
+        c["replace"] = {"after": rng.randint(1, c["k"] - 1), "state": [rng.randint(0, 999) for _ in range(d1)]}
+        cases.append(c)
     while len(cases) < n_cases:
         ty = rng.choice(["i64", "usize", "f32", "f64", "i32"])
         d = rng.choice([1, 2, 3, 4, 5, 8, 16, 33, 64]) if rng.random() < 0.4 else rng.randint(1, 64)
@@ -42,6 +48,10 @@ def mk_chain(rng, ty, d, k):
 
 
 def coq_term(case, out):
+    if case["op"] == "chain" and "replace" in case:
+        j, d0 = case["replace"]["after"], len(case["init"])
+        return "rec_sweeps %d %s %s ++ rec_sweeps_from %d %d %s %s" % (
+            case["salt"], C.natlit(j), C.zlist(case["init"]), case["salt"], j * d0, C.natlit(case["k"] - j), C.zlist(case["replace"]["state"]))
     if case["op"] == "chain":
         return "rec_sweeps %d %s %s" % (case["salt"], C.natlit(case["k"]), C.zlist(case["init"]))
     k = case["n"] + case["d"]
@@ -61,6 +71,11 @@ def flat_chain(calls, states, d):
 def impl_flat(case, out):
     if "panic" in out:
         return None
+    if case["op"] == "chain" and "replace" in case:
+        j, d0, d1, k = case["replace"]["after"], len(case["init"]), len(case["replace"]["state"]), case["k"]
+        if len(out["calls"]) != d0 * j + d1 * (k - j):
+            return None
+        return flat_chain(out["calls"][:d0 * j], out["states"][:j], d0) + flat_chain(out["calls"][d0 * j:], out["states"][j:], d1)
     if case["op"] == "chain":
         d = len(case["init"])
         if len(out["calls"]) != d * case["k"]:
@@ -102,14 +117,14 @@ def pycond(salt, cnt, i, given):
     return h
 
 
-def oracle_chain(salt, init, calls, states, k):
+def oracle_chain(salt, init, calls, states, k, cnt0=0):
     """Property text: every coordinate once (in a step), each call sees all earlier refreshes,
     answer written to that coordinate only."""
     d = len(init)
     if len(calls) != d * k:
         return "%d conditional calls in %d steps of a %d-dimensional chain" % (len(calls), k, d)
     cur = list(init)
-    cnt = 0
+    cnt = cnt0
     for t in range(k):
         step_calls = calls[t * d:(t + 1) * d]
         idxs = sorted(c[0] for c in step_calls)
@@ -129,6 +144,13 @@ def oracle_chain(salt, init, calls, states, k):
 def oracle(case, out):
     if "panic" in out:
         return "Gibbs step panicked: " + out["panic"]
+    if case["op"] == "chain" and "replace" in case:
+        j, d0, k = case["replace"]["after"], len(case["init"]), case["k"]
+        r = oracle_chain(case["salt"], case["init"], out["calls"][:d0 * j], out["states"][:j], j)
+        if r:
+            return r
+        r = oracle_chain(case["salt"], case["replace"]["state"], out["calls"][d0 * j:], out["states"][j:], k - j, cnt0=d0 * j)
+        return ("after the state was replaced by a %d-dimensional one: " % len(case["replace"]["state"]) + r) if r else None
     if case["op"] == "chain":
         return oracle_chain(case["salt"], case["init"], out["calls"], out["states"], case["k"])
     n, dd = case["n"], case["d"]
